@@ -30,6 +30,14 @@ def run(ck):
     if not q:
         ck.mc("MC_Grid", "MC_Grid_r5.cfg", what="grid r=5 invariants + count", workers=vlib.NCPU, xmx="24g",
               expect_distinct=NCELLS[5], timeout=3000)
+    # 1b. the unsafe ring walks as functions of the neighbour step: "error or exactly the BFS disk / ring" from every origin
+    for cfg, what in ((("MC_GridUnsafe_r0.cfg", "r=0, k<=4"), ("MC_GridUnsafe_r1.cfg", "r=1, k<=4"), ("MC_GridUnsafe_r2.cfg", "r=2, k<=3")) if q else
+                      (("MC_GridUnsafe_r0.cfg", "r=0, k<=4"), ("MC_GridUnsafe_r1.cfg", "r=1, k<=4"), ("MC_GridUnsafe_r2_k4.cfg", "r=2, k<=4"),
+                       ("MC_GridUnsafe_r3_k4.cfg", "r=3, k<=4"))):
+        ck.mc("MC_GridUnsafe", cfg, workers=vlib.NCPU, xmx="12g", timeout=3400,
+              what="gridDiskDistancesUnsafe / gridRingUnsafe transcribed (spiral walk with rotation bookkeeping, pentagon bail-outs, closure "
+                   "test): from every origin, either an error or exactly the BFS disk in ring order with true distances / exactly the BFS "
+                   "ring; " + what)
     # 2. model -> code: every cell of the model's graph (r <= 2) as origin of all nine functions
     drv = vlib.build_driver("drv_grid", "dbg")
     wf = os.path.join(ck.tdir, "cells.txt")
